@@ -1251,6 +1251,7 @@ func runC12(r *Rng, tier string, n int) {
 	runReaders(r, tier)
 	runWriters(r, tier)
 	runExchange(r, tier)
+	runEntryPoints(r, tier)
 	k := 1
 	if tier == "thorough" {
 		k = 10
